@@ -98,6 +98,24 @@ func (f changeFinder) changed() {
 	f.cl.Changed(f.Pos, f.End)
 }
 
+// endOf reports where a node that is about to be walked ends.
+//
+// The positions of nodes that were put into the tree by an earlier change
+// need not be those of their text: a literal starts where the code it
+// replaced did and "ends" as many bytes later as it is long, possibly in
+// another declaration. A node ends neither after the node it is a part of nor
+// after the region it is charged with.
+func (f changeFinder) endOf(n *value) token.Pos {
+	end := n.End()
+	if f.nodeEnd.IsValid() && end > f.nodeEnd {
+		end = f.nodeEnd
+	}
+	if f.Pos < f.End && end > f.End {
+		end = f.End
+	}
+	return end
+}
+
 func (f changeFinder) commentsFor(n *value) (before, after []*ast.Comment) {
 	pos, end := n.Pos(), n.End()
 	for _, cg := range n.Comments {
@@ -157,7 +175,7 @@ func (f changeFinder) Walk(from, to *value) (equal bool) {
 		}
 
 		if from.IsNode {
-			f.nodeEnd = from.End()
+			f.nodeEnd = f.endOf(from)
 		}
 
 		// Dereferencing a pointer or interface doesn't affect region.
@@ -203,7 +221,7 @@ func (f changeFinder) walkStruct(from, to *value) bool {
 		case c.IsNode:
 			// If the field is a Node, its range begins when the Node starts.
 			starts[i] = c.Pos()
-			lastEnd = c.End()
+			lastEnd = f.endOf(c)
 
 			// Comments that trail the node (a comment on the line of
 			// the package clause, for instance) belong to it, not to
@@ -231,17 +249,7 @@ func (f changeFinder) walkStruct(from, to *value) bool {
 		ends[i] = nextPos
 		if v := from.Children[i]; v.IsNode {
 			// If the field is a Node, its range ends where the Node ends.
-			ends[i] = v.End()
-
-			// ... but not after the node it is a part of. The
-			// positions of nodes added to the tree need not be those
-			// of their text: the path of an import added by an
-			// earlier change starts where the import before it does
-			// and "ends" as many bytes later as it is long, which
-			// may be in the next declaration.
-			if f.nodeEnd.IsValid() && ends[i] > f.nodeEnd {
-				ends[i] = f.nodeEnd
-			}
+			ends[i] = f.endOf(v)
 		}
 
 		// The field that preceds this field should use this field's start
@@ -284,7 +292,7 @@ func (f changeFinder) walkSlice(from, to *value) bool {
 
 		// Extend to sibling beinning and end.
 		if i > 0 {
-			r.Pos = from.Children[i-1].End()
+			r.Pos = minPos(from.Children[i-1].End(), n.Pos())
 
 			// If the previous node has any trailing comments, maintain
 			// whitespace between them and us.
@@ -298,7 +306,7 @@ func (f changeFinder) walkSlice(from, to *value) bool {
 			// If the next node has leading comments, maintain whitespace
 			// between them and us.
 			if before, _ := f.commentsFor(from.Children[i+1]); len(before) > 0 {
-				r.End = n.End()
+				r.End = minPos(n.End(), before[0].Pos())
 			}
 		}
 
